@@ -153,8 +153,8 @@ def cmd_run(filt):
         if filt and not any(f in name for f in filt):
             continue
         meta = json.load(open(os.path.join(d, "meta.json")))
-        if meta.get("status") == "superseded":
-            print("%-24s superseded (see meta.json)" % name)
+        if meta.get("status") in ("superseded", "not_detected"):
+            print("%-24s %s (see meta.json)" % (name, meta["status"]))
             continue
         try:
             rc, out = sh("git apply %s" % os.path.join(d, "patch.diff"), cwd=REPO)
@@ -164,12 +164,13 @@ def cmd_run(filt):
             res = {}
             for p in meta.get("checks", [meta["breaks_property"]]):
                 t0 = time.time()
-                rc, out = sh("python3 verif.py run %s quick" % p, cwd=ROOT)
+                tier = meta.get("tier", "quick")
+                rc, out = sh("python3 verif.py run %s %s" % (p, tier), cwd=ROOT, timeout=7200)
                 res[p] = {"rc": rc, "s": round(time.time() - t0, 1)}
             caught = [p for p, v in res.items() if v["rc"] == 1]
             print("%-24s %-8s %s" % (name, "CAUGHT" if caught else "MISSED", " ".join("%s:rc%d(%.0fs)" % (k, v["rc"], v["s"]) for k, v in res.items())), flush=True)
             results[name] = res
-            meta["last_run"] = {"caught_by": caught, "tier": "quick", "results": res}
+            meta["last_run"] = {"caught_by": caught, "tier": meta.get("tier", "quick"), "results": res}
             json.dump(meta, open(os.path.join(d, "meta.json"), "w"), indent=1)
         finally:
             sh("git checkout -- . && git clean -fdq", cwd=REPO)
